@@ -28,7 +28,7 @@ BUILT = {
          "Every pattern of the unrestricted grammar (self-referential backreferences, empty loops, \\K/\\G anywhere, conditionals) x texts mixing 1-4 byte characters x every offset x every public search entry point; oracle: returns normally, every span valid and on char boundaries, iterators end within len+2 items. Plus the wide sweep (up to 38 groups) with every span validated.",
          "catch_unwind sees every panic; hook horizons (fuel, branch-stack cap) cut looping runs so that they are reported instead of waited for.", "DESIGN.md §5 C05"),
  "C06": (E1P, "exhaustive enumeration of token sequences up to a length bound (plus fixed probes and mutations), each compiled in an isolated worker under a counting allocator",
-         "All token sequences up to length 3 (quick) / 4 (thorough, 8.6e7 strings) over a 99-token vocabulary plus depth/size probes and single-character mutations of valid patterns; oracle: Ok or Err, no panic (overflow checks on), error position <= length, heap and wall-clock under explicit caps, the process survives.",
+         "All token sequences up to length 3 (quick) / 4 (thorough, 8.6e7 strings) over a 99-token vocabulary plus depth/size probes and single-character mutations of valid patterns; oracle: Ok or Err, no panic (overflow checks on), error position <= length, long VM-compiled alternations and nested counted repeats among the probes, heap and wall-clock under explicit caps, the process survives.",
          "'Proportional' is checked against explicit caps (64 MiB + 4 KiB per byte, 5 s), not proved. Allocation failure / native stack overflow kill a worker process; the crashing input is identified by a careful-mode re-run.", "DESIGN.md §5 C06"),
  "C07": (E1, "bounded-exhaustive enumeration of (pattern, text, offset, backtrack limit) executions with exact thresholds read through a hook",
          "Every pattern of the unrestricted space x texts x offsets x limits {0,1,2,3,5,10,100,1e6} and B-1, B, B+1 (B = backtracks of the unlimited run, hook H1): limit results are the unlimited answer or BacktrackLimitExceeded, exact at the threshold; no limit error when the reference exploration is tiny; a tall pass over long regular texts and a large-count sweep over nullable bodies on tiny texts under default limits; instruction count and stack depth within a product bound.",
@@ -64,7 +64,7 @@ BUILT = {
          "All strings up to length 3 (quick) / 4 (thorough) over the 15 meta-characters plus 10 others, each escaped alone and inside 6 host patterns, searched in a family of texts: span equals str::find of the literal; escape borrows iff nothing needed escaping. Plus 1 065 long strings (ASCII stretch of every length 0..70, a multi-byte character, special characters) and a case-insensitive neighbour host.",
          "Oracle: str::find.", "DESIGN.md §5 C17"),
  "C18": (E3, "iterative preemption-bounded exhaustive exploration of thread interleavings of the real VM under a controlled scheduler (CHESS style)",
-         "Every schedule with at most 2 (quick) / 3 (thorough) preemptions of 2-3 real OS threads searching concurrently through a shared &Regex and through clones, scheduling points before every VM instruction; every call must return its sequential result. Thread i starts with entry point i (captures / find_iter), so one thread iterates while another searches; the corpus includes \\G patterns and a 4-group delegate. Plus the compile-time bound Send + Sync + Clone in a separate crate.",
+         "Every schedule with at most 2 (quick) / 3 (thorough) preemptions of 2-3 real OS threads searching concurrently through a shared &Regex and through clones, scheduling points before every VM instruction; every call must return its sequential result. Thread i starts with entry point i (captures / find_iter), so one thread iterates while another searches; the corpus includes \\G patterns and a 4-group delegate. A supplementary pass, labelled sampling and not counted as coverage, runs the same calls (and long texts) on 24 free-running threads plus the controlling thread in a child process; a child killed by a signal is reported as a violation. Plus the compile-time bound Send + Sync + Clone in a separate crate.",
          "Interleavings only at hook points; regex-automata's internal pool is trusted; an access pair between two consecutive hook points is not separated.", "DESIGN.md §5 C18"),
  "C19": (E1, "bounded-exhaustive enumeration of patterns x respelling transformers at every site x texts; parse-tree equality and identical search results",
          "Every pattern x T1-T6 respellings (free spacing, comments, named/relative references, flag scoping, escapes, possessive/atomic) at every applicable site: Expr::parse_tree results equal and captures identical on all texts and offsets.",
